@@ -199,10 +199,12 @@ def build(al, layout, parts, n=""):
         # style "b<n>a<n>t<n>[h]": line breaks before the '|', between the '|' and the filter list, between the
         # filter list and the closing brace; j line breaks inside the list (or, style h, inside the expression)
         b, a, t = int(style[1]), int(style[3]), int(style[5])
-        if style.endswith("h"):
-            main = "${" + py_br(j, parts) + "\n" * b + " |" + "\n" * a + " h" + "\n" * t + "}"
+        # (a trailing c: a Python comment after the last filter, which then needs a line break before the brace)
+        cm = "  # " + al.filler if style.endswith("c") else ""
+        if style.rstrip("c").endswith("h"):
+            main = "${" + py_br(j, parts) + "\n" * b + " |" + "\n" * a + " h" + cm + "\n" * t + "}"
         else:
-            main = "${" + (n and "EXPR" + n or "x") + "\n" * b + " |" + "\n" * a + " " + f + "(" + py_br(j, parts) + ")" + "\n" * t + "}"
+            main = "${" + (n and "EXPR" + n or "x") + "\n" * b + " |" + "\n" * a + " " + f + "(" + py_br(j, parts) + ")" + cm + "\n" * t + "}"
     elif kind in ("if", "elif", "for", "while"):
         c = py_ctl(j, parts)
         inline_after = False
@@ -270,6 +272,10 @@ def construct(al, enc, layout, form, base="", n=""):
     c = build(al, layout, parts, n)
     for k in calls:
         k.update(kind=layout[0], style=layout[1], lead=c["lead"], tagoff=c["tagoffs"][k.pop("part")], filtoff=c["filtoff"])
+        if layout[0] == "filtx" and layout[1].endswith("c"):
+            # the Python comment written after the filter list sits next to the call inside the Python fragment: whether
+            # the underlying Python extractor takes it for a comment of the message is that extractor's rule, not Mako's
+            k["pyopt"] = [al.filler]
     c["calls"] = calls
     c["layout"] = layout
     c["form"] = form
@@ -428,7 +434,7 @@ def single_doc(al, enc, cons, P, eol, arr, dec, cont="top", before_container=Fal
         for k in ccalls:
             planted.append(dict(k, req=[], opt=[], arr="none"))
         for k in cons["calls"]:
-            planted.append(dict(k, req=req, opt=opt, arr=arr))
+            planted.append(dict(k, req=req, opt=list(opt) + k.get("pyopt", []), arr=arr))
         body = cons["head"] + "".join(l + "\n" for l in clines) + indent + cons["main"]
     text = "".join(l + "\n" for l in lines) + body + dinline
     rest = cclose + dafter
@@ -1148,12 +1154,12 @@ def gen_unit(unit, tier, al):
 # between the list and the closing brace
 FILT_LAYOUTS = [("filtx", "b%da%dt%d" % (b, a, t), j) for b in (0, 1) for a in (0, 1, 2) for t in (0, 1, 2) for j in (0, 1, 2)] + [
     ("filtx", "b%da%dt%dh" % (b, a, t), j) for b in (0, 1) for a in (0, 1) for t in (0, 1, 2) for j in (0, 1, 2)
-]
+] + [("filtx", "b%da%dt%d%sc" % (b, a, t, h), j) for b in (0, 1) for a in (0, 1) for t in (1, 2) for h in ("", "h") for j in (0, 1)]
 
 
 def filt_construct(al, enc, layout, form, with_expr_call):
     """a filtx construct; optionally a second call in the expression part (left of the '|')"""
-    if not with_expr_call or layout[1].endswith("h"):
+    if not with_expr_call or layout[1].rstrip("c").endswith("h"):
         return construct(al, enc, layout, form)
     cons = construct(al, enc, layout, form, n="@")
     eparts, ecalls = make_parts(al, enc, "g", "e")
